@@ -49,16 +49,30 @@ type Edge struct {
 
 // Table is the extracted transition system of one System. Node ids are 1-based.
 type Table struct {
-	Name    string           `json:"name"`
-	Cfg     map[string]any   `json:"cfg"`
-	Init    int              `json:"init"`
-	Nodes   []map[string]any `json:"nodes"`
-	Edges   [][]Edge         `json:"edges"`
-	Closed  bool             `json:"closed"` // true: fixed point reached (no node left unexpanded)
-	Depth   int              `json:"depth"`
-	paths   [][]Event
-	edgeSrc map[int]int
-	edgeEv  map[int]Event
+	Name   string           `json:"name"`
+	Cfg    map[string]any   `json:"cfg"`
+	Init   int              `json:"init"`
+	Nodes  []map[string]any `json:"nodes"`
+	Edges  [][]Edge         `json:"edges"`
+	Closed bool             `json:"closed"` // true: fixed point reached (no node left unexpanded)
+	Depth  int              `json:"depth"`
+	// Adequacy lists what the adequacy checks of the exploration found (two paths to one fingerprint that differ in
+	// an observation or in what follows): the implementation is non-deterministic or the fingerprint too coarse.
+	// The table is still emitted; the driver reports reproduced violations and otherwise treats this as an
+	// infrastructure failure.
+	Adequacy []string `json:"adequacy,omitempty"`
+	paths    [][]Event
+	edgeSrc  map[int]int
+	edgeEv   map[int]Event
+}
+
+func (t *Table) inadequate(msg string) {
+	if len(t.Adequacy) < 5 {
+		if len(msg) > 3000 {
+			msg = msg[:3000]
+		}
+		t.Adequacy = append(t.Adequacy, msg)
+	}
 }
 
 // PathTo returns the event sequence leading to the source of edge id, followed by the edge's own event.
@@ -219,8 +233,8 @@ func Explore(sys System, opt ExploreOptions) (*Table, []PanicRecord, error) {
 				newNodes = append(newNodes, to)
 			} else {
 				if !reflect.DeepEqual(normalize(t.stripProbeMap(t.Nodes[to-1])), normalize(t.stripProbeMap(r.obs))) {
-					return nil, nil, fmt.Errorf("%s: fingerprint too coarse: node %d observed %v via %v but %v via %v",
-						sys.Name(), to, t.Nodes[to-1], t.paths[to-1], r.obs, p)
+					t.inadequate(fmt.Sprintf("%s: fingerprint too coarse: node %d observed %v via %v but %v via %v",
+						sys.Name(), to, t.Nodes[to-1], t.paths[to-1], r.obs, p))
 				}
 				if len(alts) < opt.AdequacySample*4 && rng.Intn(8) == 0 {
 					alts = append(alts, altCheck{to, p})
@@ -281,8 +295,8 @@ func Explore(sys System, opt ExploreOptions) (*Table, []PanicRecord, error) {
 				continue
 			}
 			if r1.fp != r2.fp || !reflect.DeepEqual(normalize(r1.res), normalize(r2.res)) {
-				return nil, nil, fmt.Errorf("%s: fingerprint too coarse at node %d: event %v gives %v via %v but %v via %v\nfp1=%s\nfp2=%s",
-					sys.Name(), a.node, e, r1.res, t.paths[a.node-1], r2.res, a.path, r1.fp, r2.fp)
+				t.inadequate(fmt.Sprintf("%s: fingerprint too coarse at node %d: event %v gives %v via %v but %v via %v\nfp1=%s\nfp2=%s",
+					sys.Name(), a.node, e, r1.res, t.paths[a.node-1], r2.res, a.path, r1.fp, r2.fp))
 			}
 		}
 	}
